@@ -4,6 +4,7 @@ package c01
 
 import (
 	"bytes"
+	"encoding/hex"
 	"encoding/json"
 	"fmt"
 	"io"
@@ -394,12 +395,50 @@ func TestP1Tuples(t *testing.T) {
 func TestP2Programs(t *testing.T) {
 	rec := ev.New("C01", "programs")
 	defer rec.Finish(t)
-	rec.Rule("interpreter with MaxOps = 3000: recursion, self-reference and extreme-count hostile.Templates (procedure holding itself in every slot then bind, arrays containing themselves under forall/loop, self- and mutually recursive names, cycles of names whose value is an executable name, exec of itself, begin/push loops, for with zero increment or overflowing control variable, copy/putinterval/getinterval/roll/index/repeat/array/string with counts near 2^63, failing error handlers, eexec/readstring/closefile on the current file, forall over systemdict with redefinition, CMap operators outside their blocks, unterminated strings and procedures, extreme numbers, odd DSC lines, control bytes), each alone and composed with random programs of the C02/C03 generators and with random byte strings and mutated programs; texts of 300-1700 bytes made of short lexical pieces dense in comments, DSC lines, strings and line ends of all kinds, cut at any byte; programs that first replace every handler in errordict by one that lets the program go on and then run 3-40 failing and state-changing pieces (eexec sections with bad digits, file operators, unmatched delimiters, CMap and font operators). A fifth of the programs is followed by one or two more Execute calls on the same interpreter (templates again, also after a first call that used up the budget). These texts and a quarter of the other generated inputs of every part are delivered in cycled short reads (sizes 1-4096 around the library's buffer sizes, or mixtures of sizes 1-13), with or without the last data arriving together with io.EOF. Same child-process oracle as the tuples part. Non-trivial: program has >= 2 tokens; distinct by text.")
+	rec.Rule("interpreter with MaxOps = 3000: recursion, self-reference and extreme-count hostile.Templates (procedure holding itself in every slot then bind, arrays containing themselves under forall/loop, self- and mutually recursive names, cycles of names whose value is an executable name, exec of itself, begin/push loops, for with zero increment or overflowing control variable, copy/putinterval/getinterval/roll/index/repeat/array/string with counts near 2^63, failing error handlers, eexec/readstring/closefile on the current file, forall over systemdict with redefinition, CMap operators outside their blocks, unterminated strings and procedures, extreme numbers, odd DSC lines, control bytes), each alone and composed with random programs of the C02/C03 generators and with random byte strings and mutated programs; texts of 300-1700 bytes made of short lexical pieces dense in comments, DSC lines, strings and line ends of all kinds, cut at any byte; programs that first replace every handler in errordict by one that lets the program go on and then run 3-40 failing and state-changing pieces (eexec sections with bad digits, file operators, unmatched delimiters, CMap and font operators). 270 enumerated programs meet the operand-stack limit while one or two procedure bodies are open (0-5 values, the braces, 499-600 objects) and close the braces afterwards - in a further call, behind error handlers that let the program go on, or in clear text behind an eexec section that holds the long body. A fifth of the programs is followed by one or two more Execute calls on the same interpreter (templates again, also after a first call that used up the budget). These texts and a quarter of the other generated inputs of every part are delivered in cycled short reads (sizes 1-4096 around the library's buffer sizes, or mixtures of sizes 1-13), with or without the last data arriving together with io.EOF. Same child-process oracle as the tuples part. Non-trivial: program has >= 2 tokens; distinct by text.")
 	var cases []*hcase
 	sh, n := ev.Shard()
 	for i, tm := range hostile.Templates {
 		if i%n == sh {
 			cases = append(cases, &hcase{Target: "interp", Data: []byte(tm)})
+		}
+	}
+	// A limit met while procedure bodies are open (enumerated): 0-5 values,
+	// one or two `{`, then 499-600 objects - whatever the interpreter keeps
+	// about the open bodies must survive the way it deals with the full
+	// stack - and then the closing braces: in a further call on the same
+	// interpreter, in the same call behind an error handler that lets the
+	// program go on, or in clear text behind an eexec section holding the
+	// long body.
+	{
+		k := 0
+		for _, count := range []int{499, 500, 501, 502, 600} {
+			for _, prefix := range []int{0, 2, 5} {
+				for opens := 1; opens <= 2; opens++ {
+					for _, closer := range []string{"}", "} }", "} } exec"} {
+						for variant := 0; variant < 3; variant++ {
+							k++
+							if k%n != sh {
+								continue
+							}
+							body := strings.Repeat("7 ", prefix) + strings.Repeat("{ 8 ", opens) + strings.Repeat("0 ", count)
+							hc := &hcase{Target: "interp", Label: "limit-inside-open-procedure"}
+							switch variant {
+							case 0:
+								hc.Data = []byte(body)
+								hc.More = [][]byte{[]byte(closer), []byte("} count")}
+							case 1:
+								hc.Data = []byte("errordict /stackoverflow {} put errordict /syntaxerror {} put errordict /limitcheck {} put\n" + body + closer + " count")
+							default:
+								sec := t1ref.Encrypt(append([]byte("XXXX"), body...), t1ref.EexecKey)
+								hc.Data = []byte("currentfile eexec\n" + hex.EncodeToString(sec) + "\n" + closer + " count")
+								hc.More = [][]byte{[]byte(closer)}
+							}
+							cases = append(cases, hc)
+						}
+					}
+				}
+			}
 		}
 	}
 	cfg := psgen.Config{TypeLiteral: true}
